@@ -21,6 +21,8 @@ import Arca.Proofs.LoopSafeCex
 import Arca.Proofs.LoopFinishedCex
 import Arca.Proofs.LoopInv
 import Arca.Gen.Recover
+import Arca.Gen.Skel
+import Arca.Proofs.TySkel
 import Arca.Gen.Sinks
 import Arca.Gen.Lifecycle
 import Arca.Gen.Builtins
@@ -101,6 +103,30 @@ theorem no_unchecked_assertion_on_recovered_value :
 /-- `resolveExpressions` (every frame of the recursion) defers a recover handler. -/
 theorem resolveExpressions_recovers :
     ("workflow/workflow.go", "loopState.resolveExpressions") ∈ Arca.Gen.recoverSites := by decide
+
+/-! ### defaults of the input section are decoded while the workflow is prepared (fix 2d63d83)
+
+The SDK decodes the default values of an object schema on first use and PANICS on one it cannot decode; for the input
+section of a workflow that first use was the first run.  In the current source `Prepare` decodes them (on copies, under
+`recover`) before anything else looks at the input scope, and a failure leaves `processInput` through the error return. -/
+
+/-- `processInput` validates the defaults right after the scope was unserialized, and the failure branch returns -/
+theorem input_defaults_validated_when_prepared :
+    (Arca.Proofs.Ty.after "call:validateDefaults(typedInput)" Arca.Gen.Skel.workflow_executor_executor_processInput).take 3
+      = ["if(err != nil){", "return", "}"] := by decide
+
+/-- `Prepare` processes the input section before it loads any step -/
+theorem input_processed_before_steps :
+    Arca.Proofs.Ty.occursBefore "call:e.processInput(workflow)" (fun t => t == "call:e.processSteps(workflow,dag,workflowContext)")
+      Arca.Gen.Skel.workflow_executor_executor_Prepare = true := by decide
+
+/-- the validation runs under a recover handler (a default the SDK cannot decode becomes an error, not a crash) and decodes
+    the defaults of every object of the scope -/
+theorem validateDefaults_recovers_and_decodes :
+    ("workflow/executor.go", "validateDefaults") ∈ Arca.Gen.recoverSites ∧
+    "call:recover()" ∈ Arca.Gen.Skel.workflow_executor__validateDefaults ∧
+    (Arca.Proofs.Ty.after "range(scope.Objects()){" Arca.Gen.Skel.workflow_executor__validateDefaults).take 1
+      = ["call:schema.NewObjectSchema(object.ID(), object.Properties()).GetDefaults()"] := by decide
 
 /-- The recover handlers of the engine library are the two that were reviewed. -/
 theorem recover_sites_pinned : Arca.Gen.recoverSites = Arca.Expected.C07.recoverSites := by rfl
